@@ -45,6 +45,9 @@ def run(ctx: Ctx):
     from .common import generic_lints
 
     generic_lints(ctx)
+    from .common import subtotal_terms_once
+
+    subtotal_terms_once(ctx)
     from .common import dependency_footprints
 
     dependency_footprints(ctx)
